@@ -82,6 +82,12 @@ def expect_product(pane, tree, v, items, what, missing=None, extra=None, either=
         if type(child).__name__ == 'DuplicateKeyError':
             continue
         if not any(trees.node_eq(child, a) for a in alts):
+            # a mapping ENTRY has two elements (key and value): when both are rejected on their own, a node that holds exactly
+            # their two own trees (whatever it names them) localises the failure just as well as either of them alone
+            sub = getattr(child, 'children', None)
+            if len(alts) > 1 and type(child).__name__ == 'ProductErrorNode' and isinstance(sub, dict) and len(sub) == len(alts) \
+                    and all(any(trees.node_eq(c2, a) for c2 in sub.values()) for a in alts):
+                continue
             return (f"{what}: child {key!r} is {core.srepr(child, 140)} but the element alone reports "
                     f"{core.srepr(alts[0], 140)}")
     if missing is not None and set(tree.missing) != set(missing):
